@@ -10,12 +10,12 @@ from tsa.check import Ctx, run_rules
 from tsa.rules import REGISTRY
 
 ROOT = os.environ.get("TUCAN_REPO", "/repo")
-mode = next((a for a in sys.argv[1:] if a in ("locals", "privates", "both")), "both")
+mode = next((a for a in sys.argv[1:] if a in ("locals", "privates", "both", "invert-if", "temp-return", "const-extract", "reorder-defs")), "both")
 
-from tsa.renamer import renamed_overlay
+from tsa.renamer import renamed_overlay, rewritten_overlay
 
 def main():
-    ov = renamed_overlay(ROOT, mode)
+    ov = renamed_overlay(ROOT, mode) if mode in ("locals", "privates", "both") else rewritten_overlay(ROOT, mode)
     ctx = Ctx(Repo(ROOT, ov))
     res = run_rules(ctx, sorted(REGISTRY))
     fired = [(r.rule, f.function, f.message[:110]) for r in res for f in r.findings]
